@@ -347,7 +347,9 @@ func (k Keeper) calcFeeTokenMinted(
 		return burnt, minted, types.ErrInvalidSwap
 	}
 
-	tokenMinted, err := k.GetToken(ctx, swapParams.MinUnit)
+	// the registry names the pay-out token by its min unit: resolve it as one (GetToken would
+	// try the string as a symbol first and could return another token)
+	tokenMinted, err := k.getTokenByMinUnit(ctx, swapParams.MinUnit)
 	if err != nil {
 		return burnt, minted, err
 	}
